@@ -12,12 +12,19 @@ argument order, the keyword arguments of the calls (bound against the CURRENT si
 Tree.reseed_at / Tree.encode_bipartitions, defaults included), the loop structure (`for` with `break`,
 `while` with `break` -> for_break / while_fuel over the tuple of variables the body assigns), the
 order of the statements.  Interface operations (only their call shape is compiled): the
-PhylogeneticDistanceMatrix queries, Node.distance_from_root, Tree.leaf_node_iter, Tree.reseed_at,
+PhylogeneticDistanceMatrix queries, Tree.leaf_node_iter, Tree.reseed_at,
 Tree.update_bipartitions, and the POINTER BLOCK of the method (the statements that change the object graph
 through local variables - the edge split): ONE operation here (op_split_block, applied to the variables the
 block reads in order of first use), whatever the statements inside are; py/dv/gen_mutators.py compiles those
 statements one by one over the heap (Gen/Mutators.v Tree_reroot_at_midpoint__edge_split) and Props/C07Gen.v
 proves the compiled block equal to the operation, see Fn.pointer_block_call.
+
+Wave 8: Node.distance_from_root (datamodel/treemodel/_node.py) is NOT an interface operation: class NodeFn
+compiles the method itself with the same statement compiler (`self` is a node reference; if/elif chain with
+short-circuit and/or, `not`, `== None` / `!= None` / truth value of a length, the `bound method == None` test,
+float(), the while loop over the parent pointers, `return` at the end of every branch) into
+gen_distance_from_root in the same file; gen_reroot_at_midpoint calls it.  Proofs/C07GenDfr.v proves it equal to
+C07Model.dfr for every mixture of None, zero and non-zero lengths.
 
 Whitelist: anything not recognised raises Unsupported (fail closed)."""
 import ast
@@ -166,6 +173,10 @@ class Ctx(object):
 
 
 class Fn(object):
+    self_type = GSTATE
+    fuel_term = "(loop_fuel self)"
+    node_methods = ()
+
     def __init__(self, fn, sigs):
         self.fn = fn
         try:
@@ -219,7 +230,7 @@ class Fn(object):
     def expr(self, e):
         if isinstance(e, ast.Name):
             if e.id == "self":
-                return [], "self", GSTATE
+                return [], "self", self.self_type
             if e.id not in self.env:
                 raise Unsupported("unknown name " + e.id)
             return [], e.id, self.env[e.id]
@@ -230,6 +241,8 @@ class Fn(object):
                 return [], ("true" if e.value else "false"), BOOL
             if isinstance(e.value, int):
                 return [], ("%d" % e.value if e.value >= 0 else "(%d)" % e.value), Z
+            if isinstance(e.value, float) and e.value == 0.0:
+                return [], "0", Z                           # 0.0: lengths are exact dyadics, see C07GenMidPrims
             raise Unsupported("constant " + dump(e))
         if isinstance(e, ast.List):
             parts = [self.expr(x) for x in e.elts]
@@ -262,9 +275,23 @@ class Fn(object):
         if isinstance(e, ast.BoolOp):
             parts = [self.expr(x) for x in e.values]
             if any(b for b, _, _ in parts[1:]):
-                raise Unsupported("effects in the right operand of and/or (short circuit)")
+                # short circuit: the right operand (and what it reads - an attribute of None raises) is
+                # evaluated only when the left one does not decide
+                if len(parts) != 2:
+                    raise Unsupported("effects in the right operands of a chained and/or")
+                (b0, t0, y0), (b1, t1, y1) = parts
+                v = self.fresh("and" if isinstance(e.op, ast.And) else "or")
+                right = b1 + ["Ok %s" % self.truth(t1, y1)]
+                if isinstance(e.op, ast.And):
+                    return (b0 + ["do %s <- (if %s then (" % (v, self.truth(t0, y0))] + right + [") else Ok false) ;;"],
+                            v, BOOL)
+                return (b0 + ["do %s <- (if %s then Ok true else (" % (v, self.truth(t0, y0))] + right + [")) ;;"],
+                        v, BOOL)
             op = {ast.Or: " || ", ast.And: " && "}[type(e.op)]
             return parts[0][0], "(" + op.join(self.truth(t, y) for _, t, y in parts) + ")", BOOL
+        if isinstance(e, ast.UnaryOp) and isinstance(e.op, ast.Not):
+            b, t, ty = self.expr(e.operand)
+            return b, "(negb %s)" % self.truth(t, ty), BOOL
         if isinstance(e, ast.BinOp):
             b1, lt, lty = self.expr(e.left)
             b2, rt, rty = self.expr(e.right)
@@ -291,6 +318,11 @@ class Fn(object):
         if ty in (NODE, EDGE):
             # Node / Edge define neither __bool__ nor __len__ (checked in generate): true iff not None
             return "(is_some %s)" % t
+        if ty == OZ:
+            # an edge length (None, int or float): None, 0 and 0.0 are false
+            return "(oz_truth %s)" % t
+        if ty == Z:
+            return "(negb (%s =? 0))" % t
         raise Unsupported("truth value of a %s" % ty)
 
     def attribute(self, e):
@@ -315,9 +347,24 @@ class Fn(object):
         if len(e.ops) != 1:
             raise Unsupported("chained comparison")
         op = e.ops[0]
+        rhs = e.comparators[0]
+        if (isinstance(op, (ast.Eq, ast.NotEq, ast.Is, ast.IsNot)) and isinstance(rhs, ast.Constant)
+                and rhs.value is None and isinstance(e.left, ast.Attribute) and e.left.attr in self.node_methods):
+            # `<node>.<method> == None`: the attribute is a BOUND METHOD (a plain `def` of Node, checked in
+            # generate; it is not called), which is never None; only reading <node> has an effect
+            b, vt, vty = self.expr(e.left.value)
+            if vty != NODE:
+                raise Unsupported("method %s of a %s" % (e.left.attr, vty))
+            v = self.fresh("obj")
+            return (b + ["do %s <- rd_edge %s ;;" % (v, vt)],        # attribute access on None raises
+                    "true" if isinstance(op, (ast.NotEq, ast.IsNot)) else "false", BOOL)
         b1, lt, lty = self.expr(e.left)
-        b2, rt, rty = self.expr(e.comparators[0])
+        b2, rt, rty = self.expr(rhs)
         b = b1 + b2
+        if isinstance(op, (ast.Eq, ast.NotEq)) and rty == NONE and lty == OZ:
+            # a length is None, an int or a float: `== None` holds exactly for None
+            t = "(is_some %s)" % lt
+            return b, (t if isinstance(op, ast.NotEq) else "(negb %s)" % t), BOOL
         if isinstance(op, (ast.Is, ast.IsNot)):
             neg = isinstance(op, ast.IsNot)
             if rty == NONE and lty in OPTIONAL:
@@ -346,6 +393,9 @@ class Fn(object):
         f = e.func
         if isinstance(f, ast.Name) and f.id == "float" and len(e.args) == 1 and not e.keywords:
             b, t, ty = self.expr(e.args[0])
+            if ty in (OZ, NONE):
+                v = self.fresh("float")
+                return b + ["do %s <- py_float %s ;;" % (v, self.coerce(t, ty, OZ))], v, Z    # float(None): TypeError
             if ty != Z:
                 raise Unsupported("float() of a %s" % ty)
             return b, t, Z
@@ -374,7 +424,8 @@ class Fn(object):
             return b, "(leaf_node_iter self)", TList(NODE)
         if key == (NODE, "distance_from_root", 0):
             v = self.fresh("dfr")
-            return b + ["do %s <- node_dfr %s ;;" % (v, rt)], v, Z
+            # Node.distance_from_root is translated too (gen_distance_from_root above in the same file)
+            return b + ["do %s <- gen_distance_from_root %s ;;" % (v, rt)], v, Z
         raise Unsupported("method %s of a %s with %d arguments" % (f.attr, rty, len(args)))
 
     # ------------------------------------------------------------------ statements
@@ -500,11 +551,7 @@ class Fn(object):
                 raise Unsupported("break outside a loop")
             return [ctx.brk]
         if isinstance(s, ast.Return):
-            v = s.value
-            if not (ctx.top and not rest and isinstance(v, ast.Attribute) and v.attr == "seed_node"
-                    and isinstance(v.value, ast.Name) and v.value.id == "self"):
-                raise Unsupported("return " + dump(s))
-            return ["Ok self"]        # the value returned is the seed node of the final state
+            return self.ret(s, rest, ctx)
         if isinstance(s, ast.If):
             b, t, ty = self.expr(s.test)
             c = self.truth(t, ty)
@@ -541,13 +588,19 @@ class Fn(object):
                 self.block(list(s.body), Ctx("Ok (%s, false)" % self.tup(vs), "Ok (%s, true)" % self.tup(vs)))
                 self.n = save
             b, t, ty = self.expr(s.test)
-            if ty != BOOL:
-                raise Unsupported("while test of type %s" % ty)
+            t = self.truth(t, ty)
             inner = Ctx("Ok (%s, false)" % self.tup(vs), "Ok (%s, true)" % self.tup(vs))
-            return (["do %s <- while_fuel (loop_fuel self) (fun %s =>" % (self.pat(vs, False), self.pat(vs))]
+            return (["do %s <- while_fuel %s (fun %s =>" % (self.pat(vs, False), self.fuel_term, self.pat(vs))]
                     + b + ["Ok %s) (fun %s =>" % (t, self.pat(vs))]
                     + self.block(list(s.body), inner) + [") %s ;;" % self.tup(vs)] + self.block(rest, ctx))
         raise Unsupported("statement " + dump(s))
+
+    def ret(self, s, rest, ctx):
+        v = s.value
+        if not (ctx.top and not rest and isinstance(v, ast.Attribute) and v.attr == "seed_node"
+                and isinstance(v.value, ast.Name) and v.value.id == "self"):
+            raise Unsupported("return " + dump(s))
+        return ["Ok self"]        # the value returned is the seed node of the final state
 
     def check_defined(self, vs, what):
         for v in vs:
@@ -589,6 +642,50 @@ class Fn(object):
         return head + "\n" + "\n".join(lines) + ".\n\n" + dl + "\n"
 
 
+class NodeFn(Fn):
+    """Node.distance_from_root: `self` is a node reference, the method returns a number on every path
+    (every `return` is the last statement of its branch; the loop has none)"""
+    self_type = NODE
+    fuel_term = "(node_fuel self)"
+    node_methods = ("distance_from_root",)
+
+    def __init__(self, fn):
+        self.fn = fn
+        self.ptr_block = ([object()], [], None)       # no pointer block in this method
+        self.sigs = {}
+        self.env = {}
+        self.strict = False
+        self.n = 0
+        self.before = {}
+
+    def ret(self, s, rest, ctx):
+        if not ctx.top or rest or s.value is None:
+            raise Unsupported("return " + dump(s))
+        b, t, ty = self.expr(s.value)
+        if ty != Z:
+            raise Unsupported("return of a %s" % ty)
+        return b + ["Ok %s" % t]
+
+    def translate(self):
+        a = self.fn.args
+        if a.vararg or a.kwarg or a.kwonlyargs or a.posonlyargs or [x.arg for x in a.args] != ["self"]:
+            raise Unsupported("argument form of distance_from_root")
+        if self.fn.decorator_list:
+            raise Unsupported("distance_from_root is decorated")
+        for n in ast.walk(self.fn):
+            if isinstance(n, ast.While) and has_break(n.body):
+                raise Unsupported("return / break inside the loop of distance_from_root")
+        lines = None
+        for strict in (False, True):
+            self.strict = strict
+            self.n = 0
+            self.imported = set()
+            if not strict:
+                self.env = {}
+            lines = self.block(list(self.fn.body), Ctx(None, None, top=True))
+        return ("Definition gen_distance_from_root (self : node) : res Z :=\n" + "\n".join(lines) + ".\n")
+
+
 def find_method(tree, cls, name):
     for n in tree.body:
         if isinstance(n, ast.ClassDef) and n.name == cls:
@@ -614,7 +711,9 @@ def generate(repo):
     with open(os.path.join(tm, "_tree.py")) as f:
         tree = ast.parse(f.read())
     with open(os.path.join(tm, "_node.py")) as f:
-        check_plain_identity(ast.parse(f.read()), "Node")
+        node_mod = ast.parse(f.read())
+    check_plain_identity(node_mod, "Node")
+    dfr_fn = find_method(node_mod, "Node", "distance_from_root")
     with open(os.path.join(tm, "_edge.py")) as f:
         check_plain_identity(ast.parse(f.read()), "Edge")
     fn = find_method(tree, "Tree", "reroot_at_midpoint")
@@ -635,6 +734,8 @@ def generate(repo):
            "Open Scope Z_scope.",
            "Open Scope bool_scope.",
            "",
+           "(* Node.distance_from_root (datamodel/treemodel/_node.py, line %d) *)" % dfr_fn.lineno,
+           NodeFn(dfr_fn).translate(),
            Fn(fn, sigs).translate()]
     return "\n".join(out)
 
